@@ -137,7 +137,9 @@ sends the header without body bytes, i.e. a write of 0 bytes. -/
 def parseOp (s : String) : Option (List Op) :=
   let arg := (s.drop 1).toString.toNat?
   if s.startsWith "h" then arg.map fun n => [Op.header n]
-  else if s.startsWith "w" || s.startsWith "c" || s.startsWith "n" then arg.map fun n => [Op.write n]
+  else if s.startsWith "w" then arg.map fun n => [Op.write n]
+  -- io.Copy of an empty source never calls Write, so it does not even send the header
+  else if s.startsWith "c" || s.startsWith "n" then arg.map fun n => if n = 0 then [] else [Op.write n]
   else if s.startsWith "s" then arg.map fun n => [Op.header 200, Op.write n]
   else if s = "f" then some [Op.write 0]
   else none
